@@ -511,10 +511,28 @@ func main() {
 		raceBins := map[string]string{}
 		var rmu sync.Mutex
 		var rwg sync.WaitGroup
-		rsem := make(chan struct{}, 2)
+		rsem := make(chan struct{}, 4)
+		// the pass is a sampled side condition: with thousands of matrix jobs it takes an evenly spaced sample of at
+		// most raceJobCap scenario bodies (all of them when there are fewer)
+		const raceJobCap = 160
+		eligible := 0
+		for _, j := range jobs {
+			if sc, _ := j["scenario"].(string); sc == "cache.conc" || sc == "c15.hashmap" || sc == "c16.mpsc" || sc == "c17.striped" {
+				eligible++
+			}
+		}
+		stride := (eligible + raceJobCap - 1) / raceJobCap
+		if stride < 1 {
+			stride = 1
+		}
+		seen := 0
 		for _, j := range jobs {
 			sc, _ := j["scenario"].(string)
 			if sc != "cache.conc" && sc != "c15.hashmap" && sc != "c16.mpsc" && sc != "c17.striped" {
+				continue
+			}
+			seen++
+			if (seen-1)%stride != 0 {
 				continue
 			}
 			variant, _ := j["variant"].(string)
@@ -556,7 +574,7 @@ func main() {
 			}(jj, raceBins[variant])
 		}
 		rwg.Wait()
-		racePass = map[string]any{"enabled": true, "jobs": raceJobs, "free_running_executions": raceRuns, "reports": len(raceReports)}
+		racePass = map[string]any{"enabled": true, "eligible_jobs": eligible, "jobs": raceJobs, "free_running_executions": raceRuns, "reports": len(raceReports)}
 		seenRep := map[string]bool{}
 		for _, rep := range raceReports {
 			key := rep
